@@ -170,9 +170,20 @@ def run(F, rep, tier):
     used = set()
     for (fk, kind), lst in sorted(per.items()):
         ent = None
-        for rx, k, cnt, reason in T.ARITH_TABLE:
+        for row in T.ARITH_TABLE:
+            rx, k, cnt, reason = row[:4]
             if k == kind and re.search(rx, fk):
-                ent = (rx, cnt, reason)
+                ent = (rx, cnt, reason, row[4] if len(row) > 4 else None)
+        if ent and ent[3]:
+            # the reviewed reason rests on where an operand comes from: re-check it
+            bad = None
+            for (b_, bb_) in lst:
+                t_ = b_.term(bb_)
+                if not any(re.search(ent[3], str(o)) for x in t_[4] for o in origins(b_, x)):
+                    bad = (b_, bb_)
+            if bad:
+                rep.viol('R14.2', '%s|%s|operand' % (fk, kind), 'the reviewed argument for %s in %s requires an operand derived from %s, which is no longer the case' % (kind, fk, ent[3]), bad[0].loc(bad[1]))
+                continue
         if ent and len(lst) <= ent[1]:
             used.add(ent[0] + kind)
             rep.ok('R14.2', '%s %s x%d' % (fk, kind, len(lst)), 'reviewed: ' + ent[2])
